@@ -18,7 +18,7 @@ def run(ctx):
     ctx.cov["checker_cmd"] = ("coqc -Q coq/Store BWStore coq/Store/Props/C09.v; work/bin/h_store -mode hist -c09 | "
                               "coqc work/C09/cases_*.v (digests of query x options products per state, vm_compute)")
     n = 60 if ctx.quick() else 1200
-    hargs = ["-maxops", 30, "-usize", 24]
+    hargs = ["-maxops", 30, "-usize", 24, "-bigmax", 1100 if ctx.quick() else 5000]
     if ctx.replay and sc.replay(ctx, ["-c09"], hargs, (False, False, True)):
         return
     hists = sc.hstore(["-mode", "hist", "-n", n, "-seed", ctx.seed, "-c09"] + hargs)
@@ -75,9 +75,71 @@ def run(ctx):
                        "end) is checked on the implementation for two lookups per state")
     ctx.cov["samples"] = [{"universe": h["strs"][:3], "operations": [s["op"] for s in h["steps"][:3]],
                            "c09_first": (h["steps"][0]["obs"]["c09"] or [None])[0]} for h in hists[:2]]
+    if not ctx.quick():
+        options_exhaustive(ctx)
 
 
 def search(ctx, broken):
     """failing-input search when an obligation or the build breaks: the implementation against the Python reading of
     the SPEC (checks/store_oracle.py) on fresh histories"""
     return sc.oracle_search(ctx, ["-c09"], ["-maxops", 30, "-usize", 24], (False, False, True))
+
+
+def options_exhaustive(ctx):
+    """thorough: a finite grid of ALL options values x 8 queries on EVERY sub-graph of a 6-triple universe (two anchors
+    1 ns apart, a tie for latest written in two zones, an immutable triple, a predicate-valued object)"""
+    d = sc.hstore(["-mode", "options"], timeout=3000)[0]
+    v = sc.HEADER + "Definition U := %s.\n" % sc.c_universe(d["universe"])
+    v += "Definition QS := [%s].\n" % ";".join(sc.c_query(q, d["pools"]) for q in d["qs"])
+    v += "Definition BS : list (option Z) := [%s].\n" % ";".join(sc.c_optz(b) for b in d["bounds"])
+    v += "Definition PGS : list Z := [%s].\n" % ";".join(sc.z(x) for x in d["pgs"])
+    v += "Definition D := Eval vm_compute in options_digests U QS (all_lopts BS PGS).\nPrint D.\n"
+    out = vcheck.coq_eval(ctx.work, "options_exhaustive", v, timeout=3000)
+    model = sc.parse_nlist(out, "D")
+    n = len(d["universe"])
+    # subsets in the order of Corr.subsets: subsets(x :: r) = subsets r ++ map (cons x) (subsets r)
+    def subsets(l):
+        if not l:
+            return [[]]
+        s = subsets(l[1:])
+        return s + [[l[0]] + x for x in s]
+    subs = subsets(list(range(n)))
+    bad = [i for i in range(len(d["digests"])) if i >= len(model) or model[i] != d["digests"][i]]
+    ctx.cov["options_exhaustive"] = {"graphs": d["graphs"], "options": d["options"], "queries": len(d["qs"]),
+                                     "lookups": d["lookups"], "universe": d["strs"],
+                                     "results": dict(zip(["empty", "non_empty", "error", "elements"], d["lookup_stats"]))}
+    ctx.cov["evaluations"] += d["lookups"]
+    ctx.cov["distinct_nontrivial"] += d["lookup_distinct_nonempty"]
+    for i in bad[:3]:
+        v = {"kind": "exhaustive-options-digest", "stored_triples": [d["strs"][r] for r in subs[i]], "queries": d["qs"],
+             "explain": "model and implementation disagree on some (query, options) of the full grid on this graph"}
+        v["failing_lookup"] = options_bisect(ctx, d, subs[i])
+        ctx.violation(v)
+
+
+def options_bisect(ctx, d, sub):
+    """find one (query, options) of the grid on which the implementation differs from the Python reading of the SPEC"""
+    import store_oracle as so
+    modes = [(False, None)] + [(False, [op, f]) for op in range(3) for f in (1, 2)] + \
+            [(False, [0, 0]), (False, [3, 1]), (False, [2, 3]), (True, None), (True, [0, 1])]
+    los = [{"max": m, "lower": l, "upper": u, "latest": la, "filter": f, "offset": o}
+           for l in d["bounds"] for u in d["bounds"] for (la, f) in modes for m in d["pgs"] for o in d["pgs"]]
+    h = {"universe": d["universe"], "pools": d["pools"], "names": 1}
+    ops = [["new", 0], ["add", 0, sub]]
+
+    def differs(qs, ls):
+        case = dict(h, ops=ops, c09={"1": {"qs": qs, "los": ls, "d": 0}})
+        r = sc.run_case(ctx, case, False, True)
+        return so.check_history(r, False, False, True) is not None
+    for q in d["qs"]:
+        ls = los
+        if not differs([q], ls):
+            continue
+        while len(ls) > 1:
+            half = ls[:len(ls) // 2]
+            ls = half if differs([q], half) else ls[len(ls) // 2:]
+        sp = so.Spec(dict(h, steps=[]))
+        for o in ops:
+            sp.step(o)
+        return {"query": q, "options": ls[0], "spec": sp.lookup(q, ls[0], sp.heap[0])}
+    return None
